@@ -187,6 +187,8 @@ void vf_count(const char *name, uint64_t add);
 uint64_t vf_count_get(const char *name);
 /* Emit the final summary line and return the process exit code. */
 int vf_finish(void);
+/* --sigstorm=<Hz>: number of SIGUSR1 delivered so far to random threads (EINTR everywhere) */
+uint64_t vf_signals_sent(void);
 
 /* trial signature helper: FNV-1a */
 static inline uint64_t vf_hash64(uint64_t h, uint64_t v)
